@@ -21,6 +21,7 @@ import (
 	"nvharness/lib/c12facts"
 	"nvharness/lib/c12sched"
 	"nvharness/lib/c12stress"
+	"nvharness/lib/c12worker"
 	"nvharness/lib/c13run"
 	"nvharness/lib/corr"
 	"nvharness/lib/gofacts"
@@ -41,6 +42,8 @@ func main() {
 		corr.Main(spec(), os.Args[2:])
 	case "stressrun":
 		c12stress.ChildMain(os.Args[2:])
+	case "runworker":
+		c12worker.Serve(runCase)
 	default:
 		os.Exit(2)
 	}
@@ -365,7 +368,13 @@ func (r *runner) blocking(fn func() string) string {
 		}
 		runtime.Gosched()
 	}
-	if err := c12sched.Settle(10 * time.Second); err != nil {
+	if err := c12sched.Settle(c12worker.SettleTimeout()); err != nil {
+		if strings.Contains(err.Error(), "no quiescent snapshot") {
+			r.hit("Pop", "never-quiesces", "a pop call neither returns nor parks: "+strings.SplitN(err.Error(), "\n", 2)[0])
+			r.dead = "never-quiesces"
+			c12worker.Poisoned = true
+			return "never-quiesces"
+		}
 		r.dead = "harness:" + err.Error()
 		return "harness-error"
 	}
@@ -373,7 +382,7 @@ func (r *runner) blocking(fn func() string) string {
 		return res
 	}
 	r.lq.release()
-	if err := c12sched.Settle(10 * time.Second); err != nil {
+	if err := c12sched.Settle(c12worker.SettleTimeout()); err != nil {
 		r.dead = "harness:" + err.Error()
 		return "harness-error"
 	}
@@ -684,7 +693,7 @@ func (r *runner) waitChan(op string, call func(context.Context) error) string {
 		runtime.Gosched()
 	}
 	if d, _ := t.Done(); !d {
-		if err := c12sched.Settle(10 * time.Second); err != nil {
+		if err := c12sched.Settle(c12worker.SettleTimeout()); err != nil {
 			r.dead = "harness:" + err.Error()
 			return "harness-error"
 		}
@@ -694,7 +703,7 @@ func (r *runner) waitChan(op string, call func(context.Context) error) string {
 		res = out
 	} else {
 		cancel()
-		if err := c12sched.Settle(10 * time.Second); err != nil {
+		if err := c12sched.Settle(c12worker.SettleTimeout()); err != nil {
 			r.dead = "harness:" + err.Error()
 			return "harness-error"
 		}
@@ -1372,7 +1381,13 @@ func spec() corr.Spec {
 			}
 			return genScript(r, kind, r.Range(4, 24))
 		},
-		Run: runCase,
+		// every script runs in a worker child process: a fatal error or a call that never returns is a hit, not a dead runner
+		Run: func(c corr.Case) corr.Result {
+			if len(c.Lines) == 1 && strings.HasPrefix(c.Lines[0], "stress ") {
+				return runCase(c) // already a child process of its own
+			}
+			return c12worker.Run("C12", c)
+		},
 		NonTrivial: func(c corr.Case, r corr.Result) bool {
 			// at least one item accepted and at least one item handed out
 			acc, got := false, false
